@@ -113,7 +113,9 @@ class Interpolator:
         else:
             self.xs = (np.array(fls),)
 
-            # Output values.
+            # Output values, ordered by flight level to match the coordinate
+            # values (rows in the input table can be in any order).
+            df = df.sort_values('fl')
             self.tas = df.tas.values
             self.rocd = df.rocd.values
             self.fuel_flow = df.fuel_flow.values
